@@ -90,6 +90,9 @@ func runGoderive(bin, dir string, args []string, plan *Plan, gomaxprocs int, ext
 		}
 	}
 	gr.Crashed = r.Exit == 137
+	if os.Getenv("VERIF_DEBUG") != "" {
+		fmt.Fprintf(os.Stderr, "DEBUG run dir=%s args=%v exit=%d wall=%v stderr=%s\n", dir, args, r.Exit, r.Wall, firstLines(r.Stderr, 2))
+	}
 	return gr
 }
 
